@@ -191,14 +191,21 @@ def root_factory(ns):
             rk, kk = t.str('rk', 66), t.str('kk', 66)
             rthr = t.any('rthr', [('int', t.int('rthr.i')), ('float', t.float('rthr.f'))])
             sig, oh = t.str('sig', 130), t.str('oh', 4)
+            # shape of the two key lists: one key, no key yet (a legal draft: the role is still delegated), a tuple (not a list: refused)
+            rshape = t.any('rshape', [('one', 'one'), ('empty', 'empty'), ('tuple', 'tuple')])
+            kshape = t.any('kshape', [('one', 'one'), ('empty', 'empty')])
             it = Interp(eng, ovr)
             root = Frame(it, root_factory, {}, None)
-            o1 = run_call(it, MC.build_root_metadata, [v, [rk], rthr, [kk], 1])
-            o2 = run_call(it, MC.build_root_metadata, [SInt(v.e + 1), [rk], rthr, [kk], 1])
+            rs, ks = root.split(rshape), root.split(kshape)
+            mkl = lambda shape, k: {'one': [k], 'empty': [], 'tuple': (k,)}[shape]
+            o1 = run_call(it, MC.build_root_metadata, [v, mkl(rs, rk), rthr, mkl(ks, kk), 1])
+            o2 = run_call(it, MC.build_root_metadata, [SInt(v.e + 1), mkl(rs, rk), rthr, mkl(ks, kk), 1])
             obs, structural, reach = [], [], []
-            mk = lambda mm: dict(scenario='root', v=conc(mm, v), rk=conc(mm, rk), kk=conc(mm, kk), rthr=to_wire(conc(mm, rthr)), sig=conc(mm, sig), oh=conc(mm, oh))
+            mk = lambda mm: dict(scenario='root', rshape=rs, kshape=ks, v=conc(mm, v), rk=conc(mm, rk), kk=conc(mm, kk), rthr=to_wire(conc(mm, rthr)), sig=conc(mm, sig), oh=conc(mm, oh))
             if is_ret(o1) and is_ret(o2):
                 reach.append('built')
+                if rs == 'tuple':
+                    structural.append('a key list that is not a list is refused')
                 md1, md2 = o1[1], o2[1]
                 for md in (md1, md2):
                     fs = fields(md)
@@ -212,7 +219,7 @@ def root_factory(ns):
                     c1 = run_call(it, C.checkformat_delegating_metadata, [e1])
                     if not is_ret(c1):
                         obs.append(oblige(eng, 'built root metadata passes the checker', True, mk))
-                    else:
+                    elif rs == 'one':
                         # threshold signing (OpenPGP mode): one entry under the root key whose signature is valid over the digest
                         e2['signatures'] = {rk: {'other_headers': oh, 'signature': sig}}
                         eng.add(canon(sig, 128), canon_even(oh))
@@ -229,7 +236,7 @@ def root_factory(ns):
                 for o in (o1, o2):
                     if not is_ret(o) and not exc_in(o, ('TypeError', 'ValueError')):
                         obs.append(oblige(eng, 'invalid arguments are reported as TypeError / ValueError', True, mk))
-                ok = z3.And(v.e >= 1, canon(rk, 64), canon(kk, 64), spec_over(rthr, p_natural))
+                ok = z3.And(v.e >= 1, canon(rk, 64) if rs == 'one' else z3.BoolVal(rs == 'empty'), canon(kk, 64) if ks == 'one' else z3.BoolVal(True), spec_over(rthr, p_natural))
                 obs.append(oblige(eng, 'valid arguments are accepted', ok, mk))
             m = path_model(eng)
             if m is None:
@@ -322,11 +329,15 @@ def concrete(case):
         return {'outcome': {'kind': 'ret'}, 'problems': probs}
     if sc == 'root':
         thr = from_wire(case['rthr'])
+        rs, ks = case.get('rshape', 'one'), case.get('kshape', 'one')
+        mkl = lambda shape, k: {'one': [k], 'empty': [], 'tuple': (k,)}[shape]
         with CC.stdout_as(None):
-            o1 = CC.outcome_of(MC.build_root_metadata, case['v'], [case['rk']], thr, [case['kk']], 1)
-            o2 = CC.outcome_of(MC.build_root_metadata, case['v'] + 1, [case['rk']], thr, [case['kk']], 1)
+            o1 = CC.outcome_of(MC.build_root_metadata, case['v'], mkl(rs, case['rk']), thr, mkl(ks, case['kk']), 1)
+            o2 = CC.outcome_of(MC.build_root_metadata, case['v'] + 1, mkl(rs, case['rk']), thr, mkl(ks, case['kk']), 1)
             if o1['kind'] == 'ret' and o2['kind'] == 'ret':
                 md1, md2 = from_wire(o1['value']), from_wire(o2['value'])
+                if rs == 'tuple':
+                    probs.append('a key list given as a tuple was accepted (and silently turned into something else)')
                 for md in (md1, md2):
                     if md.get('type') != 'root' or sorted(md.get('delegations', {})) != ['key_mgr', 'root']:
                         probs.append('root metadata does not delegate exactly root and key_mgr')
@@ -334,7 +345,7 @@ def concrete(case):
                     e1, e2 = S.wrap_as_signable(md1), S.wrap_as_signable(md2)
                     if CC.outcome_of(C.checkformat_delegating_metadata, e1)['kind'] != 'ret':
                         probs.append('built root metadata fails the checker')
-                    elif thr == 1 and isinstance(thr, int):
+                    elif thr == 1 and isinstance(thr, int) and rs == 'one':
                         CC.CRYPTO.install()
                         CC.CRYPTO.reset()
                         e2['signatures'] = {case['rk']: {'other_headers': case['oh'], 'signature': case['sig']}}
